@@ -748,6 +748,12 @@ fn wide_frame<F: GenFam>(rng: &mut Rng, b: &mut Budget, i: usize) -> Vec<u8> {
 // ------------------------------------------------------------------------------------------------
 // C08
 fn stream_events<F: GenFam>(out: &mut Out, rng: &mut Rng, b: &mut Budget, run: u64) {
+    stream_events_with::<F>(out, rng, b, run, Vec::new(), None)
+}
+
+/// `preset`: packets placed at the front of the stream; `force_front`: the front-end to use
+fn stream_events_with<F: GenFam>(out: &mut Out, rng: &mut Rng, b: &mut Budget, run: u64, preset: Vec<F::Packet>,
+                                 force_front: Option<&'static str>) {
     let types = F::types();
     let hi = if rng.chance(1, 10) { 40 } else { 8 };
     let n = rng.range(1, hi) as usize;
@@ -755,6 +761,13 @@ fn stream_events<F: GenFam>(out: &mut Out, rng: &mut Rng, b: &mut Budget, run: u
     let mut stream = Vec::new();
     let mut lens = Vec::new();
     let mut spelled = false;
+    for p in preset {
+        let e = enc::<F>(&p).1.unwrap_or_default();
+        lens.push(e.len());
+        stream.extend_from_slice(&e);
+        ps.push(p);
+    }
+    let npre = ps.len();
     for i in 0..n {
         let t = if rng.chance(1, 4) { *rng.pick(&["Pingreq", "Pingresp", "Disconnect", "Puback"]) } else { types[(run as usize + i * 7) % types.len()] };
         let p = F::gen(rng, b, t);
@@ -778,7 +791,11 @@ fn stream_events<F: GenFam>(out: &mut Out, rng: &mut Rng, b: &mut Budget, run: u
     let stream = Arc::new(stream);
     // the blocking front-end advances by the ENCODED length of what it decoded, which is only the consumed length
     // for canonical encodings
-    let front = if spelled { *rng.pick(&["poll", "async"]) } else { *rng.pick(&["poll", "async", "block"]) };
+    let front = match force_front {
+        Some(f) if !spelled => f,
+        _ => if spelled { *rng.pick(&["poll", "async"]) } else { *rng.pick(&["poll", "async", "block"]) },
+    };
+    let n = n + npre;
     out.boundary();
     out.hold = true;
     out.ev(json!({"ev": "StreamStart", "run_start": true, "run": run, "fam": F::NAME, "front": front,
@@ -846,10 +863,39 @@ fn stream_events<F: GenFam>(out: &mut Out, rng: &mut Rng, b: &mut Budget, run: u
     out.hold = false;
 }
 
+fn big_publish<F: GenFam>(rl: usize) -> Option<F::Packet> {
+    // a QoS-0 PUBLISH whose remaining length is exactly rl (topic "t"; v5: empty property block)
+    let overhead = if F::NAME == "v5" { 4 } else { 3 };
+    let j = serde_json::json!({"t": "Publish", "dup": false, "retain": false, "qos": 0, "pid": [], "topic": [116],
+        "payload": vec![7u8; rl - overhead],
+        "props": {"pfi": [], "mei": [], "ta": [], "rt": [], "cd": [], "sid": [], "ct": [], "user": []}});
+    let mut j = j;
+    if F::NAME == "v3" {
+        j.as_object_mut().unwrap().remove("props");
+    }
+    F::from_json(&j).ok()
+}
+
 pub fn record_stream(out: &mut Out, tier: &str, seed: u64) {
     let n = if tier == "thorough" { 20000 } else { 700 };
     let mut rng = Rng::new(seed ^ 0xC08);
     let mut b = Budget { big: if tier == "thorough" { 800 } else { 60 }, huge: if tier == "thorough" { 20 } else { 1 } };
+    // maximal-width headers: remaining lengths on the 3-byte / 4-byte boundary, followed by ordinary packets
+    let mut big: Vec<(usize, &'static str, bool)> = vec![(2097151, "block", false), (2097152, "poll", true)];
+    if tier == "thorough" {
+        big.extend([(2097151, "poll", true), (2097152, "block", false), (2097150, "async", false), (2097153, "async", true),
+                    (16383, "block", true), (16384, "block", false)]);
+    }
+    let mut bb = Budget { big: 0, huge: 0 };
+    for (k, (rl, front, v5)) in big.into_iter().enumerate() {
+        if v5 {
+            if let Some(p) = big_publish::<V5>(rl) {
+                stream_events_with::<V5>(out, &mut rng, &mut bb, 900_000 + k as u64, vec![p], Some(front));
+            }
+        } else if let Some(p) = big_publish::<V3>(rl) {
+            stream_events_with::<V3>(out, &mut rng, &mut bb, 900_000 + k as u64, vec![p], Some(front));
+        }
+    }
     for run in 0..n {
         stream_events::<V3>(out, &mut rng, &mut b, 2 * run as u64 + 1);
         stream_events::<V5>(out, &mut rng, &mut b, 2 * run as u64 + 2);
